@@ -117,6 +117,13 @@ func ipdoms(fn *ssa.Function) []int {
 
 type mergeAbort struct{}
 
+// summaries that are pure, total and never fork
+var pureExterns = map[string]bool{
+	"bytes.Equal":                       true,
+	"crypto/subtle.ConstantTimeCompare": true,
+	"internal/bytealg.Equal":            true,
+}
+
 const mergeBudget = 400
 
 // tryMerge attempts to execute the If at the end of fr.block without forking.
@@ -415,6 +422,18 @@ func (ex *Exec) pureInstr(fr *frame, in ssa.Instruction) bool {
 		}
 		return false
 	case *ssa.Call:
+		if fn, ok := in.Call.Value.(*ssa.Function); ok && in.Call.Method == nil && pureExterns[fn.String()] {
+			ext := ex.eng.externs[fn.String()]
+			if ext == nil {
+				return false
+			}
+			var args []Value
+			for _, a := range in.Call.Args {
+				args = append(args, fr.get(a))
+			}
+			fr.env[in] = ext(ex, fr, fn, args)
+			return true
+		}
 		if b, ok := in.Call.Value.(*ssa.Builtin); ok && in.Call.Method == nil {
 			switch b.Name() {
 			case "len", "cap":
